@@ -20,7 +20,7 @@ RULE = ("seeded random record lists with ids repeated 1-5 times (adjacent and in
         "ids; non-trivial = some id occurs more than once; distinct = hash of the input list")
 REQUIRED = ["contract:CVR.merge_cvrs", "merge_checked", "merge_conflict_expected", "merged_with_pool_true",
             "merged_with_pool_false", "merged_phantom_mixed", "raire_checked", "raire_file_checked",
-            "later_record_overrides_contest"]
+            "later_record_overrides_contest", "lists_whose_records_share_votes_objects"]
 ASSUMPTIONS = ["tally-pool conflict = two different non-None labels for one id (None is 'unknown')"]
 N_CASES = {"quick": 80000, "thorough": 640000}
 
@@ -64,6 +64,15 @@ def snapshot(cvr_list):
 
 def _post(rec, result, a, k, old):
     snap = old
+    if rec.counters.get("default_votes_object_contaminated") is None:
+        from shangrla.core.Audit import CVR
+        if CVR(id="probe").votes:
+            # a record built without a votes argument must be empty: if it is not, some earlier call wrote into the
+            # constructor's default object (reported once; everything after it in this process is contaminated)
+            rec.count("default_votes_object_contaminated")
+            rec.violation("c18.merge", "a_record_built_without_votes_is_not_empty_after_earlier_merges",
+                          {"votes_of_a_fresh_record": repr(CVR(id="probe").votes)[:200]}, rec.current_case)
+
     want, conflict = ref_merge(snap)
     rec.count("merge_checked")
     case = rec.current_case
@@ -117,13 +126,24 @@ def gen_records(rng):
     # labels include falsy-but-not-None values (batch number 0, empty string): None alone means "unknown"
     pools_for = {i: rng.choice((None, "p1", "p1", "p2", 0, "", 1)) for i in ids}
     conflict_ids = set(i for i in ids if rng.random() < 0.12)
+    # a quarter of the lists build their records from a few template dicts: records of DIFFERENT cards then hold the very
+    # same votes object (or, for an empty selection, no votes argument at all: the constructor's default)
+    templates = None
+    if rng.random() < 0.25:
+        templates = [{}] + [{c: {rng.choice("ABCD"): rng.choice((1, 2, True, "x", 0)) for _ in range(rng.randint(0, 3))}
+                             for c in rng.sample(contests, rng.randint(1, len(contests)))} for _ in range(2)]
     for i in seq:
         cs = rng.sample(contests, rng.randint(0, len(contests)))
         votes = {c: {rng.choice("ABCD"): rng.choice((1, 2, True, "x", 0)) for _ in range(rng.randint(0, 3))} for c in cs}
+        tmpl = None
+        if templates is not None and rng.random() < 0.6:
+            tmpl = rng.randrange(len(templates))
+            votes = copy.deepcopy(templates[tmpl])
         tp = pools_for[i] if rng.random() < 0.6 else None
         if i in conflict_ids and rng.random() < 0.5:
             tp = rng.choice(("p1", "p2", "p3", 0, ""))
-        recs.append({"id": i, "votes": votes, "phantom": rng.random() < 0.4, "pool": rng.random() < 0.35, "tally_pool": tp})
+        recs.append({"id": i, "votes": votes, "phantom": rng.random() < 0.4, "pool": rng.random() < 0.35, "tally_pool": tp}
+                    | ({"_tmpl": tmpl} if tmpl is not None else {}))
     return recs
 
 
@@ -185,8 +205,19 @@ def run_case(case, rec):
         ids = [r["id"] for r in recs]
         rec.case(case, nontrivial=len(set(ids)) < len(ids))
         want, conflict = ref_merge(recs)
-        cvrs = [CVR(id=r["id"], votes=copy.deepcopy(r["votes"]), phantom=r["phantom"], pool=r["pool"],
-                    tally_pool=r["tally_pool"]) for r in recs]
+        shared = {}
+        cvrs = []
+        for r in recs:
+            if "_tmpl" not in r:
+                cvrs.append(CVR(id=r["id"], votes=copy.deepcopy(r["votes"]), phantom=r["phantom"], pool=r["pool"],
+                                tally_pool=r["tally_pool"]))
+            elif not r["votes"]:
+                cvrs.append(CVR(id=r["id"], phantom=r["phantom"], pool=r["pool"], tally_pool=r["tally_pool"]))
+            else:
+                cvrs.append(CVR(id=r["id"], votes=shared.setdefault(r["_tmpl"], copy.deepcopy(r["votes"])), phantom=r["phantom"],
+                                pool=r["pool"], tally_pool=r["tally_pool"]))
+        if shared or any("_tmpl" in r for r in recs):
+            rec.count("lists_whose_records_share_votes_objects")
         if not conflict:
             merged_ids = [i for i in set(ids) if ids.count(i) > 1]
             for i in merged_ids:
